@@ -21,7 +21,7 @@ from mc.report import Report
 LEVEL = "fault_enumeration"
 RULE = ("configuration grid (sampler x schedule x checkpoint cadence x n_final_samples [with / without its own n_final_steps] x preconditioning x seed) x every "
         "user-callable call index k of the reference run (fault = exception, and KeyboardInterrupt, raised inside the k-th likelihood/prior call) x generator created by the sampler / handed to its constructor x "
-        "resume route {bytes, dict (unpickled), the live dict object the callback received - for every crash point -, HDF5 file path, raw pickle file path}; plus the resume-from-file constructor route with a real zuko flow; plus BlackJAXSMC (stand-in rwmh kernel) resumed from every checkpoint of an uninterrupted run; thorough "
+        "resume route {bytes, dict (unpickled), the live dict object the callback received - for every crash point -, HDF5 file path, raw pickle file path, the interrupted sampler object itself}; plus the resume-from-file constructor route with a real zuko flow; plus BlackJAXSMC (stand-in rwmh kernel) resumed from every checkpoint of an uninterrupted run; thorough "
         "adds a second fault inside every resumed run. One evaluation = one faulted or resumed run of the real sampler; "
         "non-trivial = crash point with at least one checkpoint before it and at least one iteration left to run; "
         "distinct = distinct (config, crash point, route)")
@@ -102,6 +102,17 @@ def run_config(cfg):
                     rep.count("observation:interrupted-run-wrote-other-checkpoints-but-resumes-identically")
             j = len(F.sink) - 1
             last_for_k[k] = j
+            if j >= 0 and k % 2 == 0:
+                # the interrupted sampler object itself is asked to carry on from the last checkpoint (same process)
+                payload_same = F.sink[-1][1]
+                rs = rh.resume_on_same_sampler(F, payload_same)
+                cases = {"cfg": cfg, "checkpoint_index": j, "iteration": ck[j][0], "route": "same-sampler-object", "crash_points": [k, k]}
+                rep.case(explorer.digest([cfg, k, "same-object"]), nontrivial=ck[j][0] < iters)
+                if rs.exception is not None:
+                    rep.violation(f"C11/resume-raises/same-sampler-object/{rs.exception[0]}", rs.exception, cases)
+                else:
+                    compare(rs, R, rep, "C11/resumed-run-differs/same-sampler-object", cases)
+                F = rh.run(cfg, fault_at=k)  # a fresh faulted run for the routes below (the object above has moved on)
             rep.case(explorer.digest([cfg, k]), nontrivial=j >= 0 and ck[j][0] < iters)
             # route "live dict": the dictionary object the callback received, kept by the user in the same
             # process and used after the fault (its content at resume time depends on where the run died)
